@@ -738,4 +738,6 @@ def check(rep, F, tier, replay=None):
             if not ok_:
                 rep.violation("FEE-aligned", "fee_for_input|raw-difference", "fee_for_input subtracts fees that did not go through fee_request.get_new_fee: with set_min_fee above the size-based fee every selected input still adds ~1.6k-6k lovelace to the target, so LargestFirst returns `UTxO Balance Insufficient` for offered UTxOs that cover outputs + the requested fee", {})
     post_gate_rule(rep, F, ids, adds)
+    from ruleutil import ref_size_pass_rule
+    ref_size_pass_rule(rep, F)  # every strategy adds a chosen UTxO through add_regular_utxo -> add_regular_input_extended: the fee the final coverage test uses contains the reference-script fee of that input only if its size reaches the registration
     return rep.finish(EXPLANATION, ["Value::checked_add / BigNum comparisons are exact (C14)", "fee_for_input is the marginal fee of the input (C06 / C15)"], ["csl-facts driver (MIR: resolved callees, dominators, origins slice)"])
